@@ -44,6 +44,9 @@ type W struct {
 	// server middlewares; RouteOwner: who registers the tested route
 	Groups     int `json:"groups,omitempty"`
 	RouteOwner int `json:"route_owner,omitempty"`
+	// Conc: instead of one request after another, this many clients send the request
+	// at the same time; each response must satisfy the model on its own
+	Conc int `json:"concurrent_clients,omitempty"`
 }
 
 // effective lists the middlewares (indices into w.MWs, in registration order) that wrap the tested route.
@@ -186,6 +189,9 @@ func gen(r *verifsim.Rng, tier string) (any, hx.Sched) {
 		w.HasOnError = true
 		w.OnError = genOps(r, 3, 300)
 	}
+	if r.Intn(5) == 0 {
+		w.Conc = 2 + r.Intn(2)
+	}
 	w.OnFormat = r.Intn(5) == 0
 	if w.OnFormat {
 		// The request's formatter is detached when the handler returns, so success()/
@@ -224,6 +230,11 @@ func shrink(x any) []any {
 		c := &W{}
 		json.Unmarshal(b, c)
 		return c
+	}
+	if w.Conc > 2 {
+		c := cp()
+		c.Conc--
+		out = append(out, c)
 	}
 	for i := range w.MWs {
 		c := cp()
@@ -567,6 +578,13 @@ func exec(t *testing.T, x any, s hx.Sched) *hx.Outcome {
 	all := number(w)
 	src := script(w)
 	var lg *reqLog
+	lgBy := map[string]*reqLog{} // concurrent mode: one log per client task (tasks run one at a time)
+	cur := func() *reqLog {
+		if l, ok := lgBy[verifsim.TaskName()]; ok {
+			return l
+		}
+		return lg
+	}
 	abortAt := -1
 	var setupErr string
 	type result struct {
@@ -582,20 +600,20 @@ func exec(t *testing.T, x any, s hx.Sched) *hx.Outcome {
 		env = hx.NewEnv()
 		env.Capture()
 		env.VM.AddFunc(&hx.GoFunc{Name: "__start", Params: []string{"id"}, Fn: func(ctx data.Context, a []data.Value) (data.GetValue, data.Control) {
-			if lg != nil {
+			if lg := cur(); lg != nil {
 				lg.started = append(lg.started, atoi(hx.ValStr(a[0])))
 				lg.events = append(lg.events, "op:"+hx.ValStr(a[0]))
 			}
 			return data.NewNullValue(), nil
 		}})
 		env.VM.AddFunc(&hx.GoFunc{Name: "__done", Params: []string{"id"}, Fn: func(ctx data.Context, a []data.Value) (data.GetValue, data.Control) {
-			if lg != nil {
+			if lg := cur(); lg != nil {
 				lg.done[atoi(hx.ValStr(a[0]))] = true
 			}
 			return data.NewNullValue(), nil
 		}})
 		env.VM.AddFunc(&hx.GoFunc{Name: "__mark", Params: []string{"m"}, Fn: func(ctx data.Context, a []data.Value) (data.GetValue, data.Control) {
-			if lg != nil {
+			if lg := cur(); lg != nil {
 				lg.marks = append(lg.marks, hx.ValStr(a[0]))
 				lg.events = append(lg.events, "mark:"+hx.ValStr(a[0]))
 			}
@@ -603,7 +621,7 @@ func exec(t *testing.T, x any, s hx.Sched) *hx.Outcome {
 		}})
 		env.VM.AddFunc(&hx.GoFunc{Name: "__fail", Params: []string{"k"}, Fn: func(ctx data.Context, a []data.Value) (data.GetValue, data.Control) {
 			if atoi(hx.ValStr(a[0])) == abortAt {
-				if lg != nil {
+				if lg := cur(); lg != nil {
 					lg.failed = true
 				}
 				return nil, utils.NewThrowf("injected handler abort before operation %d", abortAt)
@@ -630,6 +648,25 @@ func exec(t *testing.T, x any, s hx.Sched) *hx.Outcome {
 					hx.Serve(mux, c, hx.NewRequest("GET", fmt.Sprintf("/solo/%d", n.id), nil, nil, nil))
 					bodies[n.id] = c.Body.String()
 				}
+			}
+			if w.Conc > 1 {
+				lg = nil
+				results = make([]result, w.Conc)
+				for ci := 0; ci < w.Conc; ci++ {
+					ci := ci
+					name := fmt.Sprintf("client%d", ci)
+					l := &reqLog{done: map[int]bool{}}
+					lgBy[name] = l
+					sim.Spawn(name, func() {
+						c := hx.NewSimConn()
+						c.Strict = w.Strict
+						c.FailWriteAt = w.FailWrite
+						p := hx.Serve(mux, c, hx.NewRequest("GET", w.routePath(), nil, nil, nil))
+						results[ci] = result{-1, c, l, p}
+					})
+				}
+				o.Probe("concurrent_client_runs", 1)
+				return
 			}
 			aborts := []int{-1}
 			if w.Aborts {
@@ -658,6 +695,9 @@ func exec(t *testing.T, x any, s hx.Sched) *hx.Outcome {
 	var hashParts []string
 	var sampleReqs []any
 	for _, r := range results {
+		if r.conn == nil {
+			continue // a concurrent client that never finished (reported below as a deadlock or panic)
+		}
 		desc := check(o, w, all, bodies, r.abort, r.conn, r.log, r.pan)
 		hashParts = append(hashParts, desc)
 		if len(sampleReqs) < 3 {
@@ -666,6 +706,9 @@ func exec(t *testing.T, x any, s hx.Sched) *hx.Outcome {
 	}
 	for _, p := range res.Panics {
 		o.Violate(hx.PanicSig("C13", p), "client task panicked: "+p.Value)
+	}
+	if res.Outcome == verifsim.OutDeadlock {
+		o.Violate("C13/deadlock", fmt.Sprintf("concurrent clients deadlocked: %v", res.Blocked))
 	}
 	o.Hash = hx.HashStrings(hashParts...)
 	o.NonTrivial = len(w.Ops) > 0
